@@ -16,3 +16,4 @@ echo "$id caught_by:${caught:- NONE} inconclusive:$incon :: $first"
 git -C /repo worktree remove --force $wt
 h=$(python3 -c "import hashlib,sys;print(hashlib.sha1(sys.argv[1].encode()).hexdigest())" $wt)
 rm -f /verif/.build/*-${h:0:8}.test /verif/.build/go.${h:0:10}.mod /verif/.build/go.${h:0:10}.sum 2>/dev/null
+rm -rf /verif/.build/evidence-${h:0:10} /verif/.build/replays-new-${h:0:10}
